@@ -118,7 +118,7 @@ impl Count {
     fn to_local(self, core: usize, cores: usize, pid: usize) -> Option<usize> {
         match self {
             Self::Zero => None,
-            Self::One => Some(1),
+            Self::One => Some(0),
             Self::Cores => Some(core % cores),
             Self::CoresHalf => Some(core.div_ceil(2) % cores.div_ceil(2)),
             Self::Pids => Some(pid % cores),
